@@ -463,9 +463,11 @@ class C08(Prop):
     driver = "drv_c08"
     modelled_not_verified = [
         "message framing / pickling (C06) and RPC traffic sharing the connections; the model carries whole pubsub messages",
-        "connect_to_peer (handshake + both registrations) is one atomic model action; QMI_Context.stop is the instant `close_all` runs; "
+        "connect_to_peer (handshake + both registrations) is one atomic model action; QMI_Context.stop is two instants (router marked "
+        "inactive: sends raise at once; then `close_all` runs); "
         "a context that stops while one of *its own* threads is inside subscribe is outside the property's quantifier (DESIGN §7c)",
-        "sendall fails only when the other end has closed (simulated network); request ids are fresh counters",
+        "sendall fails only when the other end has closed (simulated network); request ids are fresh counters; a KeyError of "
+        "_handle_subscription_reply (unknown request id) is a contained no-op",
         "the deterministic scheduler, the simulated network and the tap layer (harness/props/pubsub_common.py)",
     ]
 
